@@ -215,13 +215,12 @@ class EventRelatedAnalyzer(desc.ResetMixin):
 
         h = np.array(h).squeeze()
 
-        ## t0 for the object returned here needs to be the central time, not
-        ## the first time point, because the functions 'look' back and forth
-        ## for len_et bins
+        ## The first sample returned is the one at lag `offset` (time 0 is
+        ## locked to the event occurrence, as for `eta` and `FIR`)
 
         return ts.TimeSeries(data=h,
                              sampling_rate=self.sampling_rate,
-                             t0=-1 * self.len_et * self.sampling_interval,
+                             t0=self.offset * self.sampling_interval,
                              time_unit=self.time_unit)
 
     @desc.setattr_on_read
